@@ -16,7 +16,10 @@ FermatCells == {[family |-> "fermat", pbits |-> pb, max_steps |-> ms, steps |-> 
                   ms \in {1, 2, 1000, 100000}, d \in {-2, -1, 0, 1}}
 HighLowFor(b) == {[family |-> "highlow", bits |-> b, r |-> rs[1], s |-> rs[2]] :
                    rs \in UNION {{<<r, (b \div 4) + 2 - r + e>> : r \in {3, 4, 8, b \div 8, (b \div 4) - 2}} : e \in {0, 2}}}
-HighLowCells == UNION {HighLowFor(b) : b \in (IF Thorough THEN {512, 1024, 2048} ELSE {512, 1024})}
+\* splits where the low bits alone exceed a quarter of the modulus (r around and beyond half the prime size, s = the two forced top bits or a few more)
+HighLowWide(b) == {[family |-> "highlow", bits |-> b, r |-> r, s |-> s] :
+                    r \in {(b \div 4) - 1, b \div 4, (b \div 4) + 1, (b \div 4) + 2, (b \div 4) + 3, (b \div 4) + 16, (3 * b) \div 8}, s \in {2, 7}}
+HighLowCells == UNION {HighLowFor(b) \cup HighLowWide(b) : b \in (IF Thorough THEN {512, 1024, 2048} ELSE {512, 1024})}
 UpperDiffCells == {[family |-> "upperdiff", L |-> l, dindex |-> d] :
                      l \in (IF Thorough THEN {384, 512, 768, 1024, 1536, 2048} ELSE {384, 512, 1024}), d \in 0..5}
 PatternFor(b) == {[family |-> "pattern", bits |-> b, w |-> w, dev |-> dv] :
@@ -35,7 +38,15 @@ LhwCells == {[family |-> "lhw", bits |-> b, h1 |-> h[1], h2 |-> h[2]] :
                b \in {1024, 2048}, h \in (IF Thorough THEN {<<8, 8>>, <<16, 16>>, <<16, 32>>, <<24, 24>>, <<32, 32>>} ELSE {<<8, 8>>, <<12, 16>>})}
 Pm1Cells == {[family |-> "pm1", bits |-> b, shared |-> sh, mode |-> m] :
                b \in {1024, 2048}, sh \in {62, 66, 72}, m \in {"p", "both"}}
-Cells == FermatCells \cup HighLowCells \cup UpperDiffCells \cup PatternCells \cup PermutedCells \cup CfCells \cup LhwCells \cup Pm1Cells
+\* Coverage of the default Pollard product: the primes below 2^20 from index 150 on in blocks of 44 (each once), the first 150 primes in
+\* blocks of 13 with their largest power below 2^64; the harness builds p - 1 from one block.  82025 primes below 2^20.
+TailBlocks == (82025 - 150 + 43) \div 44
+PowerBlocks == (150 + 12) \div 13
+Pm1CoverCells == {[family |-> "pm1cover", kind |-> "tail", block |-> j] :
+                    j \in (IF Thorough THEN 0..(TailBlocks - 1) ELSE {0, 1, 2, 700, 1300, TailBlocks - 2, TailBlocks - 1})}
+                 \cup {[family |-> "pm1cover", kind |-> "power", block |-> j] :
+                    j \in (IF Thorough THEN 0..(PowerBlocks - 1) ELSE {0, 5, PowerBlocks - 1})}
+Cells == Pm1CoverCells \cup FermatCells \cup HighLowCells \cup UpperDiffCells \cup PatternCells \cup PermutedCells \cup CfCells \cup LhwCells \cup Pm1Cells
 Init == cell \in {c \in Cells : c.family # "fermat" \/ c.steps >= 0}
 Next == UNCHANGED cell
 Spec == Init /\ [][Next]_cell
